@@ -1,13 +1,17 @@
 package main
 
 // polysim-lctm: isolated command for the Tendermint-family light-client engine (C30; lc drivers
-// cosmos, okex, heimdall).
+// cosmos, cosmos-stargate, okex, heimdall). lc.Finalize registers the router-generic checks
+// (C19) over exactly these drivers, so they can be exercised in isolation too.
 
 import (
 	"testing"
 
 	"polysim/cli"
+	"polysim/engines/lc"
 	_ "polysim/engines/lctm"
 )
+
+func init() { lc.Finalize() }
 
 func TestSim(t *testing.T) { cli.Main(t) }
